@@ -151,6 +151,14 @@ func firstLine(err error) string {
 	return s
 }
 
+// failf records the finding key in the notes (the engine prints at most 10 violations per section) and raises it.
+func failf(x *engine.X, key, format string, a ...any) {
+	if !x.Replay {
+		note("fail/"+key, 1)
+	}
+	x.Failf(key, format, a...)
+}
+
 func family(k *kase) string { return strings.SplitN(k.name, "/", 2)[0] }
 
 // honest demands that a run with well-behaved sources succeeds at every party.
@@ -164,12 +172,12 @@ func honest(x *engine.X, k *kase, what string, o *outcome) bool {
 			if p != nil {
 				msg = fmt.Sprintf("err=%s panic=%s starved=%v", firstLine(p.err), p.panic, p.starved)
 			}
-			x.Failf("honest-run-failed/"+family(k), "%s, run %s: party %d did not complete although every source is well behaved: %s", k.name, what, id, msg)
+			failf(x, "honest-run-failed/"+family(k), "%s, run %s: party %d did not complete although every source is well behaved: %s", k.name, what, id, msg)
 		}
 	}
 	if o.deadlock != "" {
 		ok = false
-		x.Failf("honest-run-hang/"+family(k), "%s, run %s: threads stayed blocked: %s", k.name, what, o.deadlock)
+		failf(x, "honest-run-hang/"+family(k), "%s, run %s: threads stayed blocked: %s", k.name, what, o.deadlock)
 	}
 	return ok
 }
@@ -280,9 +288,9 @@ func leafC(x *engine.X, k *kase, seed int64, A *run2) {
 			}
 			st := A.st[s][id]
 			if st.bytes == 0 {
-				x.Failf("unread-source/"+fam, "%s, %s: party %d completed the protocol without ever reading the random source it was given", k.name, what, id)
+				failf(x, "unread-source/"+fam, "%s, %s: party %d completed the protocol without ever reading the random source it was given", k.name, what, id)
 			} else if st.atFirst <= 0 {
-				x.Failf("unread-before-first-message/"+fam, "%s, %s: party %d's first message left before its random source was read (consumed at that moment: %d bytes; %d bytes in the whole session)", k.name, what, id, st.atFirst, st.bytes)
+				failf(x, "unread-before-first-message/"+fam, "%s, %s: party %d's first message left before its random source was read (consumed at that moment: %d bytes; %d bytes in the whole session)", k.name, what, id, st.atFirst, st.bytes)
 			}
 		}
 		// (2) identical supplied streams => identical messages
@@ -293,17 +301,17 @@ func leafC(x *engine.X, k *kase, seed int64, A *run2) {
 		}
 		diffs, errs := diffRuns(A.o[s], C.o[s], nil)
 		for _, e := range errs {
-			x.Failf("unparsable/"+fam, "%s: %s", k.name, e)
+			failf(x, "unparsable/"+fam, "%s: %s", k.name, e)
 		}
 		for i, d := range diffs {
 			if i >= 5 {
 				break
 			}
-			x.Failf(fmt.Sprintf("foreign-entropy/%s|%s|%s", fam, kindCid(d.cid), normPath(d.path)), "%s, %s: two executions with IDENTICAL supplied streams (and identical consumption %v) differ in message %s at leaf %s: the value depends on entropy the caller did not supply", k.name, what, fmtStats(A.st[s], k.ids), d.key, d.path)
+			failf(x, fmt.Sprintf("foreign-entropy/%s|%s|%s", fam, kindCid(d.cid), normPath(d.path)), "%s, %s: two executions with IDENTICAL supplied streams (and identical consumption %v) differ in message %s at leaf %s: the value depends on entropy the caller did not supply", k.name, what, fmtStats(A.st[s], k.ids), d.key, d.path)
 		}
 		for _, name := range sortedKeys(A.o[s].joint) {
 			if A.o[s].joint[name] != C.o[s].joint[name] {
-				x.Failf("foreign-entropy-output/"+fam+"/"+jointName(name), "%s, %s: identical supplied streams, but the output %s differs (%s vs %s)", k.name, what, name, A.o[s].joint[name], C.o[s].joint[name])
+				failf(x, "foreign-entropy-output/"+fam+"/"+jointName(name), "%s, %s: identical supplied streams, but the output %s differs\n    values: %s vs %s", k.name, what, name, A.o[s].joint[name], C.o[s].joint[name])
 			}
 		}
 	}
@@ -347,7 +355,7 @@ func leafC(x *engine.X, k *kase, seed int64, A *run2) {
 				}
 				lv, order := bigLeaves(m.payload)
 				for _, p := range order {
-					if !variable[m.key+"|"+p] {
+					if !variable[m.key+"|"+p] || deterministicLeaf(k.name, baseOnly(m.cid), stripEcho(p)) != "" {
 						continue
 					}
 					sig := runID
@@ -356,14 +364,14 @@ func leafC(x *engine.X, k *kase, seed int64, A *run2) {
 					}
 					if c := reg.add(lv[p], sig, fmt.Sprintf("run %s message %s leaf %s", runID, m.key, p)); c != nil && reported < 5 {
 						reported++
-						x.Failf(fmt.Sprintf("repeat/%s|%s|%s", fam, kindCid(m.cid), normPath(p)), "%s: the value %s occurs at [%s] (source %s) and again at [%s] (source %s) although the sources differ", k.name, c.value, c.whereA, c.sigA, c.whereB, c.sigB)
+						failf(x, fmt.Sprintf("repeat/%s|%s|%s", fam, kindCid(m.cid), normPath(p)), "%s: one value occurs at [%s] (source %s) and again at [%s] (source %s) although the sources differ\n    value: %s", k.name, c.whereA, c.sigA, c.whereB, c.sigB, c.value)
 					}
 				}
 			}
 			for _, name := range sortedKeys(o.joint) {
 				v := o.joint[name]
 				if c := reg.add([]byte("joint:"+v), runID, fmt.Sprintf("run %s output %s", runID, name)); c != nil {
-					x.Failf("repeat-output/"+fam+"/"+jointName(name), "%s: the output value %s=%s of run %s repeats [%s] although every party's source differs", k.name, name, v, runID, c.whereA)
+					failf(x, "repeat-output/"+fam+"/"+jointName(name), "%s: the output %s of run %s repeats [%s] although every party's source differs\n    value: %s", k.name, name, runID, c.whereA, v)
 				}
 			}
 		}
@@ -396,7 +404,7 @@ func leafB(x *engine.X, k *kase, seed int64, A *run2, i ID) {
 		// (1a) party i's first randomised message differs
 		d1, _ := diffRuns(a, b, func(m *msg) bool { return m.from == i && inRound1(a, m) })
 		if len(d1) == 0 {
-			x.Failf("unchanged-first-message/"+fam, "%s, %s: every leaf of party %d's first-round messages (%s) is unchanged: they do not depend on its random source", k.name, what, i, a.round1[i])
+			failf(x, "unchanged-first-message/"+fam, "%s, %s: every leaf of party %d's first-round messages (%s) is unchanged: they do not depend on its random source", k.name, what, i, a.round1[i])
 		}
 		// (1c) every other party's first-round messages are unchanged
 		dO, _ := diffRuns(a, b, func(m *msg) bool { return m.from != i && inRound1(a, m) && !k.reactive[m.from] })
@@ -404,12 +412,15 @@ func leafB(x *engine.X, k *kase, seed int64, A *run2, i ID) {
 			if n >= 3 {
 				break
 			}
-			x.Failf(fmt.Sprintf("foreign-dependence/%s|%s|%s", fam, kindCid(d.cid), normPath(d.path)), "%s, %s: party %d's first-round message %s changed at leaf %s although its own source is unchanged", k.name, what, d.from, d.key, d.path)
+			failf(x, fmt.Sprintf("foreign-dependence/%s|%s|%s", fam, kindCid(d.cid), normPath(d.path)), "%s, %s: party %d's first-round message %s changed at leaf %s although its own source is unchanged", k.name, what, d.from, d.key, d.path)
 		}
 		// (1b) the joint values change
 		for _, name := range sortedKeys(a.joint) {
+			if k.jointBy != nil && !k.jointBy[i] {
+				break // by the protocol's design the outputs are a function of the peer's randomness and fixed inputs only
+			}
 			if a.joint[name] == b.joint[name] {
-				x.Failf("unchanged-output/"+fam+"/"+jointName(name), "%s, %s: the output %s = %s is unchanged; it does not depend on party %d's randomness", k.name, what, name, a.joint[name], i)
+				failf(x, "unchanged-output/"+fam+"/"+jointName(name), "%s, %s: the output %s is unchanged; it does not depend on party %d's randomness\n    value: %s", k.name, what, name, i, a.joint[name])
 			}
 		}
 		// (1d) census: every big byte-string leaf of party i's own protocol messages changes unless it is a reviewed deterministic leaf
@@ -428,8 +439,8 @@ func leafB(x *engine.X, k *kase, seed int64, A *run2, i ID) {
 				if ok && string(vb) == string(la[p]) {
 					ck := fmt.Sprintf("%s|%s|%s", fam, baseOnly(m.cid), canonPath(p))
 					note("census/"+ck, 1)
-					if why := deterministicLeaf(fam, baseOnly(m.cid), stripEcho(p)); why == "" {
-						x.Failf("fixed-leaf/"+ck, "%s, %s: leaf %s of party %d's message %s kept its value %x although the party's random source was replaced, and it is not a reviewed deterministic leaf", k.name, what, p, i, m.key, la[p])
+					if why := deterministicLeaf(k.name, baseOnly(m.cid), stripEcho(p)); why == "" {
+						failf(x, "fixed-leaf/"+ck, "%s, %s: leaf %s of party %d's message %s kept its value although the party's random source was replaced, and it is not a reviewed deterministic leaf\n    value: %x", k.name, what, p, i, m.key, la[p])
 					}
 					continue
 				}
@@ -444,7 +455,7 @@ func leafB(x *engine.X, k *kase, seed int64, A *run2, i ID) {
 					}
 					runID := fmt.Sprintf("%s.%d", rr.r.name, s)
 					if c := reg.add(rr.v, runID, fmt.Sprintf("run %s message %s leaf %s", runID, m.key, p)); c != nil {
-						x.Failf(fmt.Sprintf("repeat/%s|%s|%s", fam, kindCid(m.cid), normPath(p)), "%s: party %d's value %s occurs at [%s] and again at [%s] although its source differs (%s vs %s)", k.name, i, c.value, c.whereA, c.whereB, A.sig[0][i], B.sig[s][i])
+						failf(x, fmt.Sprintf("repeat/%s|%s|%s", fam, kindCid(m.cid), normPath(p)), "%s: a value of party %d occurs at [%s] and again at [%s] although its source differs (%s vs %s)\n    value: %s", k.name, i, c.whereA, c.whereB, A.sig[0][i], B.sig[s][i], c.value)
 					}
 				}
 			}
@@ -464,12 +475,12 @@ func baseOnly(cid string) string {
 	return cid
 }
 
-// errIndices: the Read-call indices at which the source starts failing.
-func errIndices(calls int64) []int64 {
+// errIndices: the Read-call indices at which the source fails (one index per execution).
+func errIndices(calls int64, heavy bool) []int64 {
 	if calls <= 0 {
 		return nil
 	}
-	if engine.Thorough() || calls <= 6 {
+	if calls <= 6 || (engine.Thorough() && !heavy && calls <= 160) {
 		out := make([]int64, calls)
 		for j := range out {
 			out[j] = int64(j)
@@ -477,6 +488,15 @@ func errIndices(calls int64) []int64 {
 		return out
 	}
 	set := map[int64]bool{0: true, 1: true, calls / 2: true, calls - 2: true, calls - 1: true}
+	if engine.Thorough() && !heavy {
+		// long streams (base OT, OT-based multipliers: hundreds to thousands of calls): first 32, last 32, 64 evenly spaced
+		for j := int64(0); j < 32; j++ {
+			set[j], set[calls-1-j] = true, true
+		}
+		for j := int64(0); j < 64; j++ {
+			set[j*calls/64] = true
+		}
+	}
 	var out []int64
 	for j := range set {
 		out = append(out, j)
@@ -490,7 +510,7 @@ func errIndices(calls int64) []int64 {
 func leafE(x *engine.X, k *kase, seed int64, A *run2, i ID) {
 	fam := family(k)
 	calls := A.st[0][i].calls
-	idx := errIndices(calls)
+	idx := errIndices(calls, k.heavy)
 	if len(idx) == 0 {
 		x.Trivial()
 		return
@@ -501,11 +521,11 @@ func leafE(x *engine.X, k *kase, seed int64, A *run2, i ID) {
 		o := E.o[0]
 		for _, id := range k.ids {
 			if p := o.parties[id]; p != nil && p.panic != "" {
-				x.Failf("failing-source/panic/"+fam, "%s: party %d's source fails at Read call %d: party %d panicked: %s", k.name, i, j, id, p.panic)
+				failf(x, "failing-source/panic/"+fam, "%s: party %d's source fails at Read call %d: party %d panicked: %s", k.name, i, j, id, p.panic)
 			}
 		}
 		if o.deadlock != "" {
-			x.Failf("failing-source/hang/"+fam, "%s: party %d's source fails at Read call %d: threads stayed blocked: %s", k.name, i, j, o.deadlock)
+			failf(x, "failing-source/hang/"+fam, "%s: party %d's source fails at Read call %d: threads stayed blocked: %s", k.name, i, j, o.deadlock)
 		}
 		st := E.st[0][i]
 		if st.failed == 0 {
@@ -516,7 +536,7 @@ func leafE(x *engine.X, k *kase, seed int64, A *run2, i ID) {
 		}
 		note("failing-source/refused/"+fam, 1)
 		if p := o.parties[i]; p != nil && p.ok {
-			x.Failf("failing-source/silent-success/"+fam, "%s: party %d's random source returned an error on Read call %d (of %d), yet the party completed the protocol without error: the failure was ignored, so the value that call should have delivered did not come from the supplied source", k.name, i, j, calls)
+			failf(x, "failing-source/silent-success/"+fam, "%s: party %d's random source returned an error on Read call %d (of %d), yet the party completed the protocol without error: the failure was ignored, so the value that call should have delivered did not come from the supplied source", k.name, i, j, calls)
 		}
 	}
 	x.Observe("calls", calls, "indices", len(idx))
@@ -531,11 +551,11 @@ func leafZ(x *engine.X, k *kase, seed int64, A *run2, i ID) {
 	o := Z.o[0]
 	for _, id := range k.ids {
 		if p := o.parties[id]; p != nil && p.panic != "" {
-			x.Failf("zero-source/panic/"+fam, "%s: party %d's source delivers zeros: party %d panicked: %s", k.name, i, id, p.panic)
+			failf(x, "zero-source/panic/"+fam, "%s: party %d's source delivers zeros: party %d panicked: %s", k.name, i, id, p.panic)
 		}
 	}
 	if o.deadlock != "" {
-		x.Failf("zero-source/hang/"+fam, "%s: party %d's source delivers zeros: threads stayed blocked: %s", k.name, i, o.deadlock)
+		failf(x, "zero-source/hang/"+fam, "%s: party %d's source delivers zeros: threads stayed blocked: %s", k.name, i, o.deadlock)
 	}
 	if !o.allOK() {
 		x.Observe("refused:", describe(o, k.ids), "zero bytes consumed:", Z.st[0][i].bytes)
@@ -543,11 +563,11 @@ func leafZ(x *engine.X, k *kase, seed int64, A *run2, i ID) {
 		return
 	}
 	if Z.st[0][i].bytes == 0 {
-		x.Failf("unread-source/"+fam, "%s: party %d completed without reading its (all-zero) source", k.name, i)
+		failf(x, "unread-source/"+fam, "%s: party %d completed without reading its (all-zero) source", k.name, i)
 	}
 	d1, _ := diffRuns(A.o[0], o, func(m *msg) bool { return m.from == i && inRound1(A.o[0], m) })
 	if len(d1) == 0 {
-		x.Failf("zero-source/same-as-base/"+fam, "%s: party %d's first-round messages under an all-zero source equal those under the base stream", k.name, i)
+		failf(x, "zero-source/same-as-base/"+fam, "%s: party %d's first-round messages under an all-zero source equal those under the base stream", k.name, i)
 	}
 	Z2 := runTwo(k, "Z'", seed, map[ID]spec{i: {mode: mZero}}, 1)
 	if !sameStats(Z.st[0], Z2.st[0]) {
@@ -560,7 +580,7 @@ func leafZ(x *engine.X, k *kase, seed int64, A *run2, i ID) {
 		if n >= 3 {
 			break
 		}
-		x.Failf(fmt.Sprintf("zero-source/other-entropy/%s|%s|%s", fam, kindCid(d.cid), normPath(d.path)), "%s: with an all-zero source at party %d the protocol completed, but two such executions differ in message %s leaf %s: other entropy was used", k.name, i, d.key, d.path)
+		failf(x, fmt.Sprintf("zero-source/other-entropy/%s|%s|%s", fam, kindCid(d.cid), normPath(d.path)), "%s: with an all-zero source at party %d the protocol completed, but two such executions differ in message %s leaf %s: other entropy was used", k.name, i, d.key, d.path)
 	}
 	x.Observe("completed with degenerate messages, reproducible; zero bytes consumed:", Z.st[0][i].bytes)
 	note("zero-source/completed-reproducibly/"+fam, 1)
@@ -585,7 +605,7 @@ func leafS(x *engine.X, k *kase, seed int64, A *run2, i ID) {
 		if n >= 3 {
 			break
 		}
-		x.Failf(fmt.Sprintf("short-read/%s|%s|%s", fam, kindCid(d.cid), normPath(d.path)), "%s: party %d's source delivered the SAME bytes in reads of at most %d bytes; message %s leaf %s changed: part of the value was not taken from the source", k.name, i, shortChunk, d.key, d.path)
+		failf(x, fmt.Sprintf("short-read/%s|%s|%s", fam, kindCid(d.cid), normPath(d.path)), "%s: party %d's source delivered the SAME bytes in reads of at most %d bytes; message %s leaf %s changed: part of the value was not taken from the source", k.name, i, shortChunk, d.key, d.path)
 	}
 	x.Observe("calls", S.st[0][i].calls, "vs", A.st[0][i].calls)
 }
@@ -593,7 +613,7 @@ func leafS(x *engine.X, k *kase, seed int64, A *run2, i ID) {
 // ---------------------------------------------------------------------------------------------- TestCheck
 
 func TestCheck(t *testing.T) {
-	engine.Rule("leaf list = for every protocol case: one C/D leaf (runs A,C,D, two consecutive sessions each) and, for every party position i that samples, the leaves B_i (only i's stream replaced, two sessions), E_i (source fails once, at Read call j, j over the call indices of run A: all in thorough, {0,1,mid,last-1,last} in quick), Z_i (zero source), S_i (short reads); every leaf is one complete set of executions of all parties through the real runners / round functions; a leaf is non-trivial when its runs were executed and compared")
+	engine.Rule("leaf list = for every protocol case: one C/D leaf (runs A,C,D, two consecutive sessions each) and, for every party position i that samples, the leaves B_i (only i's stream replaced, two sessions), E_i (source fails once, at Read call j, j over the call indices of run A: {0,1,mid,last-1,last} in quick (all when <= 6); all in thorough when <= 160, else the first 32, the last 32 and 64 evenly spaced; the quick set for DKLs23 and Lindell17), Z_i (zero source), S_i (short reads); every leaf is one complete set of executions of all parties through the real runners / round functions; a leaf is non-trivial when its runs were executed and compared")
 	engine.Assume("default schedule, FIFO arrival (schedules are C11's business)", "sequential errgroup shim: identical streams are consumed in identical order", "byte-string leaves shorter than 16 bytes carry no demand (chance coincidence)", "the allow-list of deterministic leaves in allow_test.go was reviewed against the code", "purego build")
 	cases := quickCases()
 	if engine.Thorough() {
@@ -653,5 +673,11 @@ func TestCheck(t *testing.T) {
 	sec.Note("deterministic (allow-listed) leaves met by the census, with multiplicity: %s", strings.Join(notesWithPrefix(nt, "census/"), "; "))
 	for _, n := range sec.Notes {
 		fmt.Println("[C07] note:", n)
+	}
+	if fk := notesWithPrefix(nt, "fail/"); len(fk) > 0 {
+		fmt.Println("[C07] finding keys raised (with multiplicity):")
+		for _, k := range fk {
+			fmt.Println("   ", k)
+		}
 	}
 }
